@@ -132,3 +132,85 @@ func TestVerifC15AttributeHashSites(t *testing.T) {
 		}
 	}
 }
+
+// TestVerifC15CreateChallenge: createChallenge (context, contributions, nonce -> HashCommit) against the
+// reference for every list length 0..300, both markers; and on ONE caller-owned list with spare capacity:
+// the challenge over every prefix list[:k], k ascending then descending, compared with a reference
+// computed from values held separately, with the caller's list compared after every call (a helper that
+// appends to the caller's slice writes into its backing array).
+func TestVerifC15CreateChallenge(t *testing.T) {
+	r := vkit.Start(t, "C15", "createchallenge", 120*time.Second, 600*time.Second)
+	defer r.Finish()
+	r.Rule = "createChallenge(context, contributions, nonce, marker) for every number of contributions 0..300 (values of mixed sizes incl. 0 and >64 bits), both markers, against the reference DER+SHA-256; on one caller-owned list with spare capacity every prefix list[:k] in ascending and descending order of k; non-trivial = distinct (length, marker, pass); oracle: equals the reference computed from separately held values; the caller's list is unchanged after every call"
+	mkv := func(i int) *big.Int {
+		switch i % 5 {
+		case 0:
+			return vfInt(int64(i))
+		case 1:
+			return vfTag(fmt.Sprint("c15cc-", i))
+		case 2:
+			return new(big.Int).Lsh(vfTag(fmt.Sprint("c15cc-", i)), uint(8*(i%40)))
+		case 3:
+			return vfInt(0)
+		}
+		return new(big.Int).Sub(vfPow2(uint(64+i%192)), vfInt(1))
+	}
+	const N = 300
+	held := make([]string, N) // values held separately, as text
+	for i := range held {
+		held[i] = mkv(i).String()
+	}
+	fresh := func(k int) []*big.Int {
+		out := make([]*big.Int, k)
+		for i := range out {
+			out[i], _ = new(big.Int).SetString(held[i], 10)
+		}
+		return out
+	}
+	ctx, nonce := vfContext, vfNonce
+	for _, issig := range []bool{false, true} {
+		if _, mine := r.Next(); !mine {
+			continue
+		}
+		// (a) fresh lists of every length
+		for k := 0; k <= N; k++ {
+			r.Eval()
+			r.Nontrivial(fmt.Sprintf("fresh|%d|%v", k, issig))
+			got := createChallenge(ctx, nonce, fresh(k), issig)
+			want := refChallenge(ctx, nonce, fresh(k), issig)
+			r.Outcome(fmt.Sprintf("fresh list:marker=%v:equals reference=%v", issig, got.Cmp(want) == 0))
+			if got.Cmp(want) != 0 {
+				r.Violate("C15|createChallenge!=reference|fresh-list", fmt.Sprintf("%d contributions, marker=%v", k, issig), []any{k, issig})
+				break
+			}
+		}
+		// (b) one caller-owned list with spare capacity, prefixes ascending then descending
+		list := make([]*big.Int, N, N+8)
+		copy(list, fresh(N))
+		order := []int{}
+		for k := 0; k <= N; k++ {
+			order = append(order, k)
+		}
+		for k := N; k >= 0; k-- {
+			order = append(order, k)
+		}
+		for pass, k := range order {
+			r.Eval()
+			r.Nontrivial(fmt.Sprintf("prefix|%d|%d|%v", pass, k, issig))
+			got := createChallenge(ctx, nonce, list[:k], issig)
+			want := refChallenge(ctx, nonce, fresh(k), issig)
+			intact := true
+			for i := 0; i < N; i++ {
+				if list[i] == nil || list[i].String() != held[i] {
+					intact = false
+					r.Violate("C15|createChallenge|callers-list-changed", fmt.Sprintf("after the call on list[:%d] (marker=%v) element %d of the caller's list is %v", k, issig, i, list[i]), []any{k, i, issig})
+					list[i], _ = new(big.Int).SetString(held[i], 10)
+				}
+			}
+			r.Outcome(fmt.Sprintf("prefix of a shared list:marker=%v:equals reference=%v:list intact=%v", issig, got.Cmp(want) == 0, intact))
+			if got.Cmp(want) != 0 {
+				r.Violate("C15|createChallenge!=reference|prefix-of-shared-list", fmt.Sprintf("list[:%d], marker=%v", k, issig), []any{k, issig})
+			}
+		}
+	}
+}
